@@ -45,7 +45,7 @@ func GenCollisionUniverse(rng *rand.Rand) *Universe {
 			s.SKID = ks[0].SKID
 		}
 	})
-	mk("B/k0", 1, 1, ks[0], ks[0], nil) // same key (and SKID), different subject
+	mk("B/k0", 1, 1, ks[0], ks[0], nil)                                                       // same key (and SKID), different subject
 	mk("A/k0'", 0, 0, ks[0], ks[0], func(s *Spec) { s.NotAfter = s.NotAfter.Add(time.Hour) }) // re-issue
 	akidChoices := func(signer *Key) []byte {
 		switch pick(5) {
